@@ -19,7 +19,7 @@ KIND_TEXT = {
     "p": b"ab", "B": b"DDBEGIN", "E": b"DDEND", "BE": b"// DDBEGIN DDEND", "EB": b"DDEND-DDBEGIN",
     "xBx": b"\"a DDBEGIN';", "xEx": b"<DDEND a=1>",
     # marker lines that are not valid UTF-8 (latin-1 comments, stray bytes): bytes are bytes, also in an error message
-    "Bx": b"// d\xe9but DDBEGIN", "Ex": b"\xffDDEND\x80",
+    "Bx": b"// d\xe9but DDBEGIN", "Ex": b"\xffDDEND\x80", "wEw": b"var ADDEND_1 = 3;",
 }
 TERMS = (b"\n", b"\r\n", b"\r")
 XTERMS = TERMS + (b"\x0b", b"\x0c", b"\x1c", b"\xc2\x85", b"\xe2\x80\xa8")
@@ -116,8 +116,8 @@ def error_path(ctx, count):
     cwd = os.getcwd()
     os.chdir(d)
     try:
-        for i in range(count):
-            data = files[i % len(files)]
+        for i in range(max(count, 2 * len(files))):
+            data = files[(i // 2) % len(files)]
             for kind_flag in ("--lines", "--char", "--symbol", "--js", "--attrs"):
                 f = d / "tc.js"
                 f.write_bytes(data)
@@ -127,8 +127,10 @@ def error_path(ctx, count):
                     called.unlink()
                 before_listing = sorted(os.listdir(d))
                 raised = None
+                # also with --tempdir naming a directory that does not exist yet: nothing is created before the rejection
+                extra = ["--tempdir=" + str(d / "not-yet-there")] if i % 2 else []
                 try:
-                    Lithium().main([kind_flag, str(d / "c08_probe_test.py"), str(f)])
+                    Lithium().main(extra + [kind_flag, str(d / "c08_probe_test.py"), str(f)])
                 except LithiumError as exc:
                     raised = exc
                 except SystemExit as exc:
